@@ -28,6 +28,7 @@ def _doc(i):
     return " ".join(d.split())[:1500]
 
 AUTO = {
+ "C13": ("TLA+ spec Server.tla (one action per critical section of server.go; starter, serve loops, workers, shutdown caller, second starter, clients): TLC model checking of safety + liveness with 15 must-fail broken variants + tlc -simulate behaviours forced onto the real server through gate hooks (fakenet transports, quiescence from goroutine stacks, projection compared after each step) + trace validation of un-gated scenario runs (hook events numbered inside the critical sections), also in a -race build, goroutine/conn census", "4/C13"),
  "C01": ("TLA+ spec WireRR.tla (hand-written RFC wire layout table for all 80 registry types, EDNS0 options, SVCB keys, header/RCODE split; encoders, length arithmetic, reference decoder): TLC model checking + TLC-generated boundary vectors with expected octets replayed into Pack/Unpack/PackRR/UnpackRR + trace validation of random messages (EncMsg(msg) = bytes)", "4/C01"),
  "C08": ("TLA+ specs WireRR.tla (LenMsg, true length) and CompressLen.tla (PackImpl / LenImpl models of packDomainName and the length predictor): TLC model checking LenImpl >= PackImpl with the pointer limit lowered + vectors and recorded {msg, compress, len, packlen} events judged against the models; PackBuffer in-place clause observed", "4/C08"),
  "C11": ("TLA+ spec Tsig.tla (RFC 8945 digest input, signed-message layout, MAC-chain session machine; HMAC uninterpreted): TLC model checking of envelope chains with faults + TLC-generated vectors and chain behaviours replayed into TsigGenerate / VerifTsigVerifyAt / Transfer.ReadMsg / Conn + trace validation; the harness applies crypto/hmac to the SPEC's octets", "4/C11"),
